@@ -465,6 +465,8 @@ impl DebugSession {
             body,
         };
         let value = serde_json::to_value(rsp)?;
+        #[cfg(feature = "verif")]
+        crate::dap::verif::sched_point("session.response", value["seq"].as_i64().unwrap_or(0));
 
         let mut lock = self.io.lock().unwrap();
         lock.write_message(&value)
@@ -481,6 +483,8 @@ impl DebugSession {
 
     fn send_event_raw(&mut self, name: &'static str, body: Option<Value>) -> anyhow::Result<()> {
         let seq = self.next_seq();
+        #[cfg(feature = "verif")]
+        crate::dap::verif::sched_point("session.event", seq);
         let mut lock = self.io.lock().unwrap();
 
         protocol::send_event(seq, &mut *lock, name, body)
@@ -544,6 +548,8 @@ impl DebugSession {
                     Ok(0) => break,
                     Ok(_) => {
                         let s = seq.fetch_add(1, std::sync::atomic::Ordering::Relaxed);
+                        #[cfg(feature = "verif")]
+                        crate::dap::verif::sched_point("forwarder.stdout", s);
 
                         {
                             let mut lock = io.lock().unwrap();
@@ -573,6 +579,8 @@ impl DebugSession {
                     Ok(0) => break,
                     Ok(_) => {
                         let s = seq.fetch_add(1, std::sync::atomic::Ordering::Relaxed);
+                        #[cfg(feature = "verif")]
+                        crate::dap::verif::sched_point("forwarder.stderr", s);
 
                         {
                             let mut lock = io.lock().unwrap();
